@@ -230,7 +230,19 @@ pub fn take_last_panic() -> String {
         .unwrap_or_else(|| "<no message>".into())
 }
 
+/// Salt of the hash-key stream used by the real executions (0 in ordinary runs): every
+/// `ahash::RandomState` the code under test creates during a run gets keys that are a function of
+/// (case, salt, creation index), never of the OS — so a run is repeatable even if the code
+/// iterates a hash map — and `check_c26` re-executes some requests under another salt.
+static KEY_SALT: std::sync::atomic::AtomicU64 = std::sync::atomic::AtomicU64::new(0);
+
+fn arm_hash_keys(case: &Case) {
+    let salt = KEY_SALT.load(std::sync::atomic::Ordering::SeqCst);
+    ahash::sim::set_stream(Some(mix(&[case.world_seed, 0x4A5E, salt])));
+}
+
 pub fn run_sync(case: &Case, p: &Parsed, trace: bool) -> Result<RealRun, Violation> {
+    arm_hash_keys(case);
     let op = match p.doc.operations.get(case.operation_name.as_deref()) {
         Ok(op) => op,
         Err(e) => {
@@ -297,6 +309,7 @@ pub fn run_sync(case: &Case, p: &Parsed, trace: bool) -> Result<RealRun, Violati
 }
 
 pub fn run_async(case: &Case, p: &Parsed, trace: bool) -> Result<RealRun, Violation> {
+    arm_hash_keys(case);
     let op = p
         .doc
         .operations
@@ -629,6 +642,8 @@ pub struct C26Outcome {
     pub request_error: bool,
     pub unsupported: bool,
     pub propagated_to_root: bool,
+    /// the request was executed a second time under another hash-key stream
+    pub rekeyed: bool,
     /// union of the world outcomes consulted by the real run and both reference runs
     pub consulted: BTreeMap<String, world::Outcome>,
     /// rows of the reference executor's decision table reached by model M
@@ -644,6 +659,7 @@ pub fn check_c26(case: &Case, p: &Parsed, trace: bool) -> C26Outcome {
         request_error: false,
         unsupported: false,
         propagated_to_root: false,
+        rekeyed: false,
         consulted: BTreeMap::new(),
         model_rows: BTreeMap::new(),
     };
@@ -944,6 +960,27 @@ pub fn check_c26(case: &Case, p: &Parsed, trace: bool) -> C26Outcome {
         }
         None
     })();
+    // 12. the response (messages and locations included) must not depend on the hash keys the
+    //     process happens to have: requests whose response carries errors — where a choice of
+    //     "which problem is reported" can hide — are executed again under another key stream
+    if out.violation.is_none() && resp.get("errors").is_some() && (m.errors.len() > 1 || case.world_seed % 4 == 0 || m.rows.borrow().contains_key("field.argument_coercion_error")) {
+        KEY_SALT.store(1, std::sync::atomic::Ordering::SeqCst);
+        let again = run_sync(case, p, false);
+        KEY_SALT.store(0, std::sync::atomic::Ordering::SeqCst);
+        out.rekeyed = true;
+        if let Ok(again) = again {
+            if again.response.as_ref().ok() != Some(&resp) {
+                let d = match &again.response {
+                    Ok(r2) => first_diff(&resp, r2, "response").unwrap_or_default(),
+                    Err(e) => format!("request error {e}"),
+                };
+                out.violation = viol(
+                    "response_depends_on_hash_keys",
+                    format!("the same request executed under two hash-key streams gives two responses | {d}"),
+                );
+            }
+        }
+    }
     let mut a = error_paths(&resp);
     let mut b = m.errors.clone();
     a.sort();
